@@ -39,6 +39,11 @@ EXHAUSTIVE_MEANS = "thorough: all arrival patterns of <=4 calls on a half-period
 REQUIRED_CLASSES = ["overload-window", "timedelta-period", "burst", "function-raises", "cancelled-caller"]
 
 
+# periods that are not dyadic fractions (1/3, 0.1) make start times inexact in binary floating point: the window bound
+# and the delay obligation are judged with this tolerance (a real violation is off by a whole scheduling step)
+EPS = 1e-9
+
+
 class ThrErr(Exception):
     pass
 
@@ -77,7 +82,22 @@ def run_case(case) -> Outcome:
         # the bare decorator form uses the documented defaults limit=1, period=1 second
         wrapped = throttle(fn) if form == "bare" else throttle(limit=limit, period=p)(fn)
 
+        if case.get("bystander"):
+            # a second, independently throttled function (much longer period) called at the same moments: the two
+            # throttles must not share anything
+
+            async def other_fn(i):
+                return ("other", i)
+
+            other = throttle(limit=1000, period=1000.0)(other_fn)
+        else:
+            other = None
+
         async def caller(i):
+            if other is not None:
+                r = await other(i)
+                if r != ("other", i):
+                    produced[("other", i)] = r
             if calls[i]["a"] > 0:
                 await asyncio.sleep(calls[i]["a"])
             arrivals.append((i, loop.time() - t0))
@@ -125,7 +145,7 @@ def run_case(case) -> Outcome:
     # (1) window bound
     ts = sorted(t for _, t in starts)
     for i in range(len(ts) - limit):
-        if ts[i + limit] - ts[i] < period:
+        if ts[i + limit] - ts[i] < period - EPS:
             out.violate(
                 "window",
                 f"C15.window/more-than-limit-starts-in-period/{cfg}",
@@ -144,7 +164,7 @@ def run_case(case) -> Outcome:
         earlier = arr_order[:pos]
         if any(j not in s_of or s_of[j] > a for j in earlier):
             continue  # an earlier call is still waiting at a
-        began = [j for j in earlier if a - period < s_of[j] <= a]
+        began = [j for j in earlier if a - period - EPS < s_of[j] <= a]  # boundary cases count as "began" (fewer obligations)
         if len(began) < limit and s_of[i] != a:
             out.violate(
                 "delay",
@@ -170,6 +190,8 @@ def run_case(case) -> Outcome:
         classes.append("long-running-function")
     if any_cancel:
         classes.append("cancelled-caller")
+    if case.get("bystander"):
+        classes.append("second-throttled-function")
     out.classes = classes
     out.nontrivial = overload
     return out
@@ -179,8 +201,11 @@ def strategy(tier):
     @st.composite
     def cases(draw):
         limit = draw(st.integers(1, 4))
-        period = draw(st.sampled_from([0.5, 1.0, 2.5]))
-        form = draw(st.sampled_from(["float", "timedelta", "float", "int"] if period == 1.0 else ["float", "timedelta"]))
+        period = draw(st.sampled_from([0.5, 1.0, 2.5, 0.5, 1.0, 2.5, 1 / 3, 0.1, 0.7]))
+        if period in (0.5, 1.0, 2.5):
+            form = draw(st.sampled_from(["float", "timedelta", "float", "int"] if period == 1.0 else ["float", "timedelta"]))
+        else:
+            form = "float"  # not a whole number of microseconds: only meaningful as a float
         if draw(st.integers(0, 9)) == 0:
             limit, period, form = 1, 1.0, "bare"
         n = draw(st.integers(1, 12))
@@ -212,7 +237,7 @@ def strategy(tier):
             calls.append({"a": a, "dur": dur, "out": draw(st.sampled_from(["value", "value", "exc"])), "cancel_at": cancel_at})
         # the pattern starts at an absolute time that is not a round number (nothing may depend on where the clock stands)
         t0 = draw(st.sampled_from([0, 0, 1 / 128, 37 / 128, 1000 + 5 / 1024]))
-        return {"limit": limit, "period": period, "form": form, "calls": calls, "t0": t0}
+        return {"limit": limit, "period": period, "form": form, "calls": calls, "t0": t0, "bystander": draw(st.integers(0, 3)) == 0}
 
     return cases()
 
